@@ -293,7 +293,8 @@ func (w *World) Step(i int, st M) (M, error) {
 			w.resolvePing(c, req)
 		}
 		if adv := geti(req, "adv"); adv > 0 {
-			verifrt.Advance(time.Duration(adv) * time.Microsecond)
+			// (one nanosecond more than the whole microseconds asked for: a value that is not truncated like the others shows)
+			verifrt.Advance(time.Duration(adv)*time.Microsecond + time.Nanosecond)
 		}
 		msg, err := w.build(req)
 		if err != nil {
